@@ -94,7 +94,9 @@ fn cause(d: &Desc, class: &str) -> String {
         t.push("base-prefix-format");
     }
     if !d.has(RMD) {
-        t.push("no-required-mantissa-digits");
+        // the recorded defect (empty input accepted) concerns formats that require no digits at all; with
+        // required_integer_digits the empty input is rejected on the pinned tree, so those formats get their own trait
+        t.push(if d.has(RID) { "no-required-mantissa-digits-but-required-integer-digits" } else { "no-required-mantissa-digits" });
     }
     if t.is_empty() {
         "-".into()
